@@ -483,6 +483,9 @@ def gen_costs(rnd, doms, ties=True, all_tied=False):
             row = [rnd.randint(1, 4 if ties else 1000) for _ in range(cols)]
         if rnd.random() < 0.3:
             row[rnd.randrange(cols)] = rnd.choice([0, 0, -1])
+        if rnd.random() < 0.2:
+            # free moves: several (possibly all) costs are zero - "the value that minimizes the cost" still exists
+            row = [0 if rnd.random() < 0.65 else c for c in row]
         rows.append(row)
     return rows
 
